@@ -376,7 +376,7 @@ fn budget(prop: &str, tier: &str) -> Budget {
     let runs = env_runs.unwrap_or(if second { quick * 6 } else if tier == "thorough" { quick * 30 } else { quick });
     Budget {
         runs,
-        watchdog: Duration::from_secs(if prop == "C14" { 20 } else { 60 }),
+        watchdog: Duration::from_secs(if prop == "C14" { 90 } else { 60 }),
         wall_cap: Duration::from_secs(if tier == "thorough" { 3000 } else { 600 }),
     }
 }
@@ -620,6 +620,11 @@ pub fn check(prop: &str, tier: &str, extra: &[String]) -> i32 {
             "components": {
                 "real": ["cosmian_cover_crypt (all of it, built from /repo's working tree)", "cosmian_crypto_core", "ml-kem", "curve arithmetic", "AES-GCM", "KMAC/SHA3"],
                 "simulated": ["network (delay, loss, duplication, reordering of MPK and refresh traffic)", "storage (slots with byte and record level faults)", "process crash/restart (reload from serialized bytes)", "backup/restore of the authority", "OS entropy (interposed getrandom, seeded)", "instance CSPRNG (seeded ChaCha)", "parties' application logic"]
+            },
+            "enumerated": {
+                "note": "fault sub-spaces enumerated position by position on sampled objects (SweepSlot / SweepUsk / SweepHostile events); 'exhaustive' sweeps visit every bit / length / byte / operator position / field x boundary value of their object, 'strided' ones every k-th",
+                "counts": agg.checks.iter().filter(|(k, _)| k.starts_with("enumerated-")).map(|(k, v)| (k.clone(), *v)).collect::<BTreeMap<String, u64>>(),
+                "objects_swept": agg.probes.iter().filter(|(k, _)| k.starts_with("sweep-")).map(|(k, v)| (k.clone(), *v)).collect::<BTreeMap<String, u64>>(),
             },
             "known_findings_seen": known_seen,
             "violations_detail": reported,
